@@ -156,10 +156,23 @@ Lemma bis_start_Ibr lo init hi : lo <= hi ->
   Ibr lo hi (bis_start {| b_lower := lo; b_init := init; b_upper := hi |}).
 Proof. intro H. unfold Ibr, bis_start. cbn. lra. Qed.
 
+(* the NaN test `x_curr.is_nan()` of the range check (repair 5439521) is vacuous over the reals *)
+Lemma nneb_refl_R (x : R) : nneb x x = false.
+Proof.
+  unfold nneb. cbn [neqb RNum]. replace (Reqb x x) with true; [reflexivity|].
+  symmetry. apply Reqb_true. reflexivity.
+Qed.
+
+Lemma init_out_R (lo init hi : R) :
+  init_out {| b_lower := lo; b_init := init; b_upper := hi |} = Rltb init lo || Rltb hi init.
+Proof.
+  unfold init_out. cbn [b_lower b_init b_upper nltb RNum]. rewrite nneb_refl_R. reflexivity.
+Qed.
+
 Lemma init_in (lo init hi : R) :
   init_out {| b_lower := lo; b_init := init; b_upper := hi |} = false -> lo <= init <= hi.
 Proof.
-  unfold init_out. cbn [b_lower b_init b_upper nltb RNum]. intro H.
+  rewrite init_out_R. intro H.
   apply orb_false_elim in H. destruct H as [H1 H2].
   apply Rltb_false in H1. apply Rltb_false in H2. lra.
 Qed.
@@ -198,7 +211,7 @@ Lemma c06_init_rejected : forall (f : R -> res R) lo init hi tol cap,
   init < lo \/ hi < init ->
   bisection f {| b_lower := lo; b_init := init; b_upper := hi |} tol cap = Err EXInitOutOfBounds.
 Proof.
-  intros f lo init hi tol cap H. unfold bisection, init_out. cbn [b_lower b_init b_upper nltb RNum].
+  intros f lo init hi tol cap H. unfold bisection. rewrite init_out_R.
   destruct H as [H|H].
   - apply Rltb_true in H. rewrite H. reflexivity.
   - apply Rltb_true in H. rewrite H, orb_true_r. reflexivity.
@@ -496,7 +509,7 @@ Proof.
         - exfalso. assert (0 <= Rabs (bs_x r)) by apply Rabs_pos. nra. }
       assert (L * Rabs (bs_x r - z) <= L * (tol / 100 * X)) by (apply Rmult_le_compat_l; lra).
       lra. }
-  unfold bisection, init_out. cbn [b_lower b_init b_upper nltb RNum].
+  unfold bisection. rewrite init_out_R.
   replace (Rltb init lo) with false by (symmetry; apply Rltb_false; lra).
   replace (Rltb hi init) with false by (symmetry; apply Rltb_false; lra).
   cbn [orb]. unfold bisect_run. rewrite Hl. cbn [bind].
@@ -512,7 +525,7 @@ Lemma c06_root_at_lower_end : forall (f : R -> res R) lo init hi tol cap vm,
   bisection f {| b_lower := lo; b_init := init; b_upper := hi |} tol cap = Ok lo.
 Proof.
   intros f lo init hi tol cap vm Hin Hlo Hm Hcap.
-  unfold bisection, init_out. cbn [b_lower b_init b_upper nltb RNum].
+  unfold bisection. rewrite init_out_R.
   replace (Rltb init lo) with false by (symmetry; apply Rltb_false; lra).
   replace (Rltb hi init) with false by (symmetry; apply Rltb_false; lra).
   cbn [orb]. unfold bisect_run.
@@ -626,13 +639,13 @@ Lemma c06_example_lower_end :
 Proof.
   unfold s_bisection, bisection_poly. cbn [target bind].
   replace (init_out _) with false.
-  2:{ symmetry. unfold init_out. cbn [b_lower b_init b_upper nltb RNum].
+  2:{ symmetry. rewrite init_out_R.
       apply orb_false_intro; apply Rltb_false; lra. }
   pose proof (c06_root_at_lower_end (s_eval_univariate px2m4) 2 3 5 (1 / 100000) 100
                 (eval_simple px2m4 ((2 + 5) / 2))) as H.
   unfold bisection in H.
   replace (init_out _) with false in H.
-  2:{ symmetry. unfold init_out. cbn [b_lower b_init b_upper nltb RNum].
+  2:{ symmetry. rewrite init_out_R.
       apply orb_false_intro; apply Rltb_false; lra. }
   apply H; [lra| |reflexivity|lia].
   unfold s_eval_univariate. rewrite px2m4_eval. f_equal. ring.
@@ -666,7 +679,7 @@ Lemma c06_stale_zero_repaired :
   bisection (fun x => Ok (x - 1 / 2)) {| b_lower := -3; b_init := -1; b_upper := 1 |} (1 / 100000) 1200
     = Ok (1 / 2).
 Proof.
-  unfold bisection, init_out. cbn [b_lower b_init b_upper nltb RNum]. rbool. cbn [orb].
+  unfold bisection. rewrite init_out_R. rbool. cbn [orb].
   unfold bisect_run.
   set (f := fun x : R => Ok (x - 1 / 2)).
   set (s1 := {| bs_iter := 0; bs_lower := -1; bs_upper := 1; bs_x := -1; bs_err := Some 0; bs_exact := false |}).
